@@ -159,13 +159,41 @@ pub fn gen_case(seed: u64, run: u64, faults: bool, real_every: u64) -> Case {
             real,
         });
     }
+    // the process environment: things a terminal session exports (none of them declared by the
+    // definition, so none of them may matter) plus the definition's own variables
+    let mut env: Vec<(Tok, Tok)> = Vec::new();
+    if r.chance(1, 2) {
+        for (name, vals) in [
+            ("COLUMNS", &["20", "40", "60", "80", "200", "abc", ""][..]),
+            ("LINES", &["5", "50"][..]),
+            ("NO_COLOR", &["1", ""][..]),
+            ("LANG", &["C", "en_US.UTF-8"][..]),
+            ("LC_ALL", &["C.UTF-8"][..]),
+            ("HOME", &["/root", "/nonexistent"][..]),
+            ("USER", &["x"][..]),
+            ("COMP_LINE", &["app --a"][..]),
+            ("PATH", &["/bin"][..]),
+        ] {
+            if r.chance(1, 3) {
+                env.push((name.as_bytes().to_vec(), r.pick(vals).as_bytes().to_vec()));
+            }
+        }
+        for name in opts.declared_envs() {
+            let st = gen::env_state(&mut r);
+            if let Some(v) = gen::env_value(&mut r, st) {
+                env.retain(|(k, _)| k != name.as_bytes());
+                env.push((name.as_bytes().to_vec(), v));
+            }
+        }
+    }
     Case {
         prop: "C11".into(),
         seed,
         run,
         parsers: vec![opts],
-        env: vec![],
+        env,
         ops,
+        interlude: Vec::new(),
     }
 }
 
@@ -261,6 +289,95 @@ pub fn predict(pred: &Obs) -> Prediction {
         }
         other => Prediction::Abnormal(format!("{:?}", other)),
     }
+}
+
+/// Is there anything on the command line that can make bpaf answer on stdout? Deliberately
+/// generous (a necessary condition only): some token spells, or as a cluster contains, a help or
+/// version name of some level of the definition, or a level with fallback_to_usage sees an
+/// empty line (top level: nothing but `--`/completion switches; a command: its name is there).
+pub fn stdout_has_cause(opts: &Opts, rest: &[Tok]) -> bool {
+    let mut longs: Vec<String> = Vec::new();
+    let mut shorts: Vec<char> = Vec::new();
+    let mut usage_top = false;
+    let mut usage_cmd_names: Vec<String> = Vec::new();
+    fn cmd_names(s: &crate::shape::Shape, out: &mut Vec<(Vec<String>, bool)>) {
+        s.walk(&mut |n| {
+            if let crate::shape::Shape::Cmd {
+                name,
+                shorts,
+                longs,
+                opts,
+                ..
+            } = n
+            {
+                let mut names = vec![name.to_string()];
+                names.extend(longs.iter().map(|l| l.to_string()));
+                names.extend(shorts.iter().map(|c| c.to_string()));
+                out.push((names, opts.fallback_to_usage));
+            }
+        });
+    }
+    let mut first = true;
+    opts.walk_opts(&mut |o| {
+        match &o.help_names {
+            None => {
+                longs.push("help".into());
+                shorts.push('h');
+            }
+            Some(n) => {
+                longs.extend(n.longs.iter().map(|l| l.to_string()));
+                shorts.extend(n.shorts.iter().copied());
+            }
+        }
+        if o.version.is_some() {
+            match &o.version_names {
+                None => {
+                    longs.push("version".into());
+                    shorts.push('V');
+                }
+                Some(n) => {
+                    longs.extend(n.longs.iter().map(|l| l.to_string()));
+                    shorts.extend(n.shorts.iter().copied());
+                }
+            }
+        }
+        if first {
+            usage_top = o.fallback_to_usage;
+            first = false;
+        }
+    });
+    let mut cmds = Vec::new();
+    cmd_names(&opts.root, &mut cmds);
+    for (names, usage) in cmds {
+        if usage {
+            usage_cmd_names.extend(names);
+        }
+    }
+    for t in rest {
+        let text = String::from_utf8_lossy(t);
+        if let Some(l) = text.strip_prefix("--") {
+            let name = l.split('=').next().unwrap_or("");
+            if longs.iter().any(|x| x == name) {
+                return true;
+            }
+        } else if let Some(cluster) = text.strip_prefix('-') {
+            let head = cluster.split('=').next().unwrap_or("");
+            if head.chars().any(|c| shorts.contains(&c)) {
+                return true;
+            }
+        }
+        if usage_cmd_names.iter().any(|n| *n == text) {
+            return true;
+        }
+    }
+    if usage_top
+        && rest
+            .iter()
+            .all(|t| t == b"--" || t.starts_with(b"--bpaf-complete-"))
+    {
+        return true;
+    }
+    false
 }
 
 fn show(b: &[u8]) -> String {
@@ -390,6 +507,7 @@ pub fn spawn_real(
     argv: &[Tok],
     out_fault: &StreamFault,
     err_fault: &StreamFault,
+    env: &[(Tok, Tok)],
     tag: &str,
 ) -> Result<RealObs, String> {
     let _ = std::fs::create_dir_all(marker_dir());
@@ -403,6 +521,9 @@ pub fn spawn_real(
         cmd.arg(OsString::from_vec(a.clone()));
     }
     cmd.env_clear();
+    for (k, v) in env {
+        cmd.env(OsString::from_vec(k.clone()), OsString::from_vec(v.clone()));
+    }
     cmd.stdin(Stdio::piped()).stdout(so).stderr(se);
     if close_out || close_err {
         unsafe {
@@ -460,7 +581,15 @@ pub fn spawn_real(
 pub fn run_case(case: &Case, stats: &mut Stats) -> RunReport {
     let mut report = RunReport::default();
     let mut h = Fnv::new();
-    crate::world::with(|s| s.env.clear());
+    crate::world::with(|s| {
+        s.env.clear();
+        for (k, v) in &case.env {
+            s.env.insert(k.clone(), v.clone());
+        }
+    });
+    if !case.env.is_empty() {
+        stats.bump("probe.launch_with_environment");
+    }
     let opts = match case.parsers.first() {
         Some(o) => o,
         None => {
@@ -515,6 +644,30 @@ pub fn run_case(case: &Case, stats: &mut Stats) -> RunReport {
             }
             Prediction::Bad(key, detail) => violation!("P3", ix, key, detail),
         };
+        // ---- P5: help/version/usage on stdout and completion output need a cause on the
+        // command line; everything else that is not a value is a parse failure and belongs
+        // on stderr with status 1
+        if e.class == "stdout" && !stdout_has_cause(opts, rest) {
+            violation!(
+                "P5",
+                ix,
+                "rule=P5 stdout-without-request".to_string(),
+                format!(
+                    "run_inner answered on stdout with status 0 although the command line {:?} neither asks for help/version nor is an empty line of a fallback_to_usage level; a parse failure must go to stderr with status 1\nstdout would be: {:?}",
+                    rest.iter().map(|t| String::from_utf8_lossy(t).to_string()).collect::<Vec<_>>(),
+                    show(&e.stdout)
+                )
+            );
+        }
+        if e.class == "completion" && !rest.iter().any(|t| t.starts_with(b"--bpaf-complete-rev=")) {
+            violation!(
+                "P5",
+                ix,
+                "rule=P5 completion-without-request".to_string(),
+                "completion output although no completion was requested".to_string()
+            );
+        }
+        stats.bump("rule.P5.evaluated");
         stats.bump(&format!("class.{}", e.class));
         classes.insert(e.class);
         match argv.first() {
@@ -577,6 +730,14 @@ pub fn run_case(case: &Case, stats: &mut Stats) -> RunReport {
         h.write(&obs.stdout);
         h.write(&obs.stderr);
         h.write_u64(obs.status as u64);
+        report.trace.push(format!(
+            "launch {}: status {} body {:?} stdout {:?} stderr {:?}",
+            ix,
+            obs.status,
+            obs.body,
+            show(&obs.stdout),
+            show(&obs.stderr)
+        ));
         let body = obs.body.as_ref().map(|v| format!("{:?}", v));
         if let Some((key, detail)) = judge(
             &e,
@@ -600,7 +761,7 @@ pub fn run_case(case: &Case, stats: &mut Stats) -> RunReport {
         if real && !argv.is_empty() {
             let dull = argv.iter().map(|a| a.len()).sum::<usize>() % 2 == 1;
             let exe = realproc(dull);
-            match spawn_real(&exe, opts, argv, out_fault, err_fault, &format!("{}-{}", case.run, ix)) {
+            match spawn_real(&exe, opts, argv, out_fault, err_fault, &case.env, &format!("{}-{}", case.run, ix)) {
                 Err(why) => {
                     stats.bump("real.harness_error");
                     h.write_str("real-harness-error");
